@@ -153,6 +153,8 @@ var nodeKinds = []struct {
 	{"socket", p9.ModeSocket | 0o644},
 }
 
+var derivedShapes = []string{"walked", "clone", "clone-of-clone", "two-step-walk", "created", "walked-then-entry-renamed", "clone-then-entry-renamed", "clone-onto-same-fid"}
+
 var nondirShapes = []string{"root:[node,x]", "root:[node,x,y]", "root:[ok,node,x]", "fid(node):[x]", "fid(node):[x,y]", "attach:node/x", "attach:/node/x", "attach:ok/node/x"}
 
 // enumerate calls f for every case of the tier, in a fixed order.
@@ -184,6 +186,14 @@ func enumerate(quick bool, f func(p params)) {
 			forLists(quick, func(idx []int) {
 				f(params{Kind: "attach", Msg: "Tattach", Idx: idx, Lead: lead, WGA: wga})
 			})
+		}
+		// (6) names the SERVER derives: the old name of Trename and the name of
+		// Tremove are not in the request; the server looks up what the fid's
+		// entry is called now, whatever way the fid came into being.
+		for _, sh := range derivedShapes {
+			for _, msg := range []string{"Trename", "Tremove"} {
+				f(params{Kind: "derived", Msg: msg, Shape: sh, WGA: wga})
+			}
 		}
 		// (5) intermediate non-directories.
 		for _, nk := range nodeKinds {
@@ -585,6 +595,8 @@ func runCase(p params) *result {
 		runAttach(r, p)
 	case "nondir":
 		runNondir(r, p)
+	case "derived":
+		runDerived(r, p)
 	default:
 		panic("c09: unknown case kind " + p.Kind)
 	}
@@ -703,6 +715,88 @@ func runName(r *result, p params, pos, x, y string) {
 	r.steps++
 	e.stop()
 	checkNoBadRecorded(r, p, fs, pos)
+}
+
+// runDerived: Trename / Tremove through a fid that came into being in the
+// given way; the backend's RenameAt / UnlinkAt must be given the name the entry
+// has at that moment - never an empty or otherwise unsafe one.
+func runDerived(r *result, p params) {
+	e := start(8192, p.WGA, func(fs *memfs.FS) {
+		fs.AddFile("d/ok", []byte("data"))
+		fs.MkdirP("e")
+	})
+	defer e.stop()
+	s, fs := e.s, e.fs
+	s.Attach(1)
+	s.Walk(1, 2, "d")
+	s.Walk(1, 4, "e")
+	cur := "ok" // what the entry is called when the request is made
+	fid := uint32(3)
+	switch p.Shape {
+	case "walked":
+		s.Walk(2, 3, "ok")
+	case "clone":
+		s.Walk(2, 5, "ok")
+		s.Do(rawpeer.Twalk(70, 5, 3))
+	case "clone-of-clone":
+		s.Walk(2, 5, "ok")
+		s.Do(rawpeer.Twalk(70, 5, 6))
+		s.Do(rawpeer.Twalk(71, 6, 3))
+	case "clone-onto-same-fid":
+		s.Walk(2, 3, "ok")
+		s.Do(rawpeer.Twalk(70, 3, 3))
+	case "two-step-walk":
+		s.Do(rawpeer.Twalk(70, 1, 3, "d", "ok"))
+	case "created":
+		s.Do(rawpeer.Twalk(70, 2, 3))
+		s.Do(refcodec.New(refcodec.Tlcreate, 71, 3, "fresh", 2, 0o644, 0))
+		cur = "fresh"
+	case "walked-then-entry-renamed":
+		s.Walk(2, 3, "ok")
+		s.Do(refcodec.New(refcodec.Trenameat, 70, 2, "ok", 2, "moved"))
+		cur = "moved"
+	case "clone-then-entry-renamed":
+		s.Walk(2, 5, "ok")
+		s.Do(rawpeer.Twalk(70, 5, 3))
+		s.Do(refcodec.New(refcodec.Trenameat, 71, 2, "ok", 2, "moved"))
+		cur = "moved"
+	default:
+		panic("c09: unknown derived shape " + p.Shape)
+	}
+	r.steps += 6
+	before := len(fs.Calls)
+	var reply refcodec.Msg
+	wantMethod := "UnlinkAt"
+	if p.Msg == "Trename" {
+		reply = s.Do(refcodec.New(refcodec.Trename, 77, fid, 4, "n2"))
+		wantMethod = "RenameAt"
+	} else {
+		reply = s.Do(rawpeer.Tremove(77, fid))
+	}
+	r.steps++
+	calls := fs.Calls[before:]
+	r.evals++
+	where := p.Msg + "(" + p.Shape + ")"
+	found := false
+	for _, c := range calls {
+		if c.Method != wantMethod {
+			continue
+		}
+		found = true
+		if len(c.Names) == 0 || c.Names[0] != cur {
+			r.violate(p, fmt.Sprintf("derived-name-wrong|%s|%s", p.Msg, p.Shape),
+				fmt.Sprintf("%s: the entry is called %s, backend %s was given %s", where, label(cur), c.Method, labels(c.Names)), describeCalls(calls)...)
+		}
+	}
+	if !found {
+		r.violate(p, fmt.Sprintf("derived-name-not-forwarded|%s|%s", p.Msg, p.Shape),
+			fmt.Sprintf("%s: reply %s, no %s reached the backend", where, replyDesc(reply), wantMethod), describeCalls(calls)...)
+	}
+	r.outcome = fmt.Sprintf("derived|%s|%s|%s|named=%d", p.Msg, p.Shape, replyDesc(reply), len(namedCalls(calls)))
+	s.Do(rawpeer.Tgetattr(78, 1))
+	r.steps++
+	e.stop()
+	checkNoBadRecorded(r, p, fs, where)
 }
 
 func runWalk(r *result, p params) {
@@ -953,7 +1047,7 @@ func runNoModeRoot(rep *fw.Report, wga bool) {
 
 func run(ctx *fw.Ctx, rep *fw.Report) {
 	memfs.RecordSites = false
-	rep.Rule = "complete product: 18-name alphabet {empty . .. / a/b /a a/ a//b ./a a/.. ..a ... NUL highbytes space 255xa 65535xa ok} x 13 single-name positions (Tlcreate Tucreate Tmkdir Tumkdir Tsymlink Tusymlink Tlink Tmknod Tumknod Trename Trenameat.old Trenameat.new Tunlinkat), Trenameat old x new (18x18), every Twalk and Twalkgetattr name list of length 1..3 over the alphabet, attach names = the property's list + every list of 1..3 alphabet components joined by '/' with and without leading '/', and walks/attaches whose intermediate node is dir(control)/file/symlink/fifo/chardev/blockdev/socket in 8 request shapes, plus an attach root for which the backend reports no mode (nothing may be walked from it); everything x memfs WalkGetAttr {ENOSYS, implemented}; one fresh server+memfs per case, raw refcodec peer; distinct = (position, name class, reply, number of backend calls)"
+	rep.Rule = "complete product: 18-name alphabet {empty . .. / a/b /a a/ a//b ./a a/.. ..a ... NUL highbytes space 255xa 65535xa ok} x 13 single-name positions (Tlcreate Tucreate Tmkdir Tumkdir Tsymlink Tusymlink Tlink Tmknod Tumknod Trename Trenameat.old Trenameat.new Tunlinkat), Trenameat old x new (18x18), every Twalk and Twalkgetattr name list of length 1..3 over the alphabet, attach names = the property's list + every list of 1..3 alphabet components joined by '/' with and without leading '/', and walks/attaches whose intermediate node is dir(control)/file/symlink/fifo/chardev/blockdev/socket in 8 request shapes, plus an attach root for which the backend reports no mode (nothing may be walked from it), plus the names the SERVER derives (old name of Trename, name of Tremove) for a fid that is walked / a clone / a clone of a clone / cloned onto itself / from a two-step walk / bound by Tlcreate / walked or cloned and its entry renamed since: the backend must be given the entry's current name; everything x memfs WalkGetAttr {ENOSYS, implemented}; one fresh server+memfs per case, raw refcodec peer; distinct = (position, name class, reply, number of backend calls)"
 	rep.Assumptions = append(rep.Assumptions,
 		"attach name reading: one leading '/' is the absolute marker, the rest is split at '/'; names starting with '//' may be answered EINVAL or walked (text silent), what reaches the backend is checked in either case",
 		"Tattach with a bad component: the nameless preamble Attach()/GetAttr/Close on the root is not 'a name reaching the backend' and is accepted before the EINVAL; any call carrying a name is not",
